@@ -32,11 +32,12 @@ import tarfile
 DRIVER = "drv_c08"
 RULE = ("(i) trees of <=40 entries over regular files (sizes 0..70k, modes incl. setuid/sticky), empty and nested "
         "directories, relative/absolute/dangling symlinks, hard links (files, symlinks, fifos), fifos, names from a "
-        "pool of unicode / shell-special / long / reserved ('content', 'meta', '.git') strings; (ii) archives of 1..9 "
+        "pool of unicode / shell-special / long / reserved ('content', 'meta', '.git') strings; (ii) archives of 1..12 "
         "members drawn from a grammar over member names (content/ prefix, '..', '.', empty components, absolute, "
         "unknown top level), types (reg, dir, sym, lnk, fifo, chr), link names (inside, '..', absolute, through "
         "symlinks), pax version (1, other, missing), audit member (present, missing, duplicated) plus scenario "
-        "templates for symlink-then-write, hard-link escapes and duplicates, in jails with stale content, inbound "
+        "templates for symlink-then-write, hard-link escapes and duplicates, stateful sequences (re-pointed symlinks, repeated link names, "
+        "type changes of one name, members through them), in jails with stale content, inbound "
         "symlinks and symlinked parents; (iii) every prefix length and sampled single bit flips of small artifacts. "
         "A case is distinct by its full input (tree / member list + jail variant / corrupted byte string) and "
         "non-trivial if it is not the empty tree resp. contains a content member resp. differs from the artifact.")
@@ -383,9 +384,58 @@ def scenario(r, jail):
     return ms
 
 
+def gen_stateful(r, jail):
+    """archives whose members depend on what earlier members left behind: a small base tree, then a random sequence over
+    * SYM members that (re-)point an already extracted symlink of the same name to inside / outside targets,
+    * LNK members that use the same link name repeatedly (before and after such a re-pointing),
+    * members of one name with changing types (REG->SYM, SYM->DIR, DIR->SYM, ...),
+    * members that go through those names (write / mkdir / link below them, overwrite through a hard link)."""
+    J = jail
+    fname, outside = r.choice([("victim2", "../../out"), ("victim2", J + "/out"), ("victim", "../.."), ("victim", J),
+                               ("deep", "../../out/sub"), ("f", "../../out")])
+    base = r.choice(["real", "e"])
+    link = r.choice(["d", "s"])
+    inside = [base, "e2", "./" + base, base + "/../" + base] if r.random() < 0.2 else [base, "e2"]
+    ms = [{"name": "content/" + base, "type": "dir", "mode": 0o755}] if r.random() < 0.7 else []
+    ms.append({"name": "content/%s/%s" % (base, fname), "type": "reg", "data": "in", "mode": 0o644})
+    if r.random() < 0.5:
+        ms.append({"name": "content/e2", "type": "dir", "mode": 0o755})
+    if r.random() < 0.8:
+        ms.append({"name": "content/" + link, "type": "sym", "link": r.choice(inside)})
+    hl = 0
+    hls = []
+    changed = False
+    for _ in range(r.randrange(3, 8)):
+        k = r.random()
+        if changed and k >= 0.38 and r.random() < 0.5:
+            k = r.choice([0.1, 0.1, 0.9])      # use what the previous member has just changed
+        changed = 0.38 <= k < 0.66 or 0.74 <= k < 0.87
+        if k < 0.38:        # hard link through the symlink (same link name every time) or directly
+            hl += 1
+            h = "content/h%d" % hl if r.random() < 0.85 or not hls else r.choice(hls)
+            hls.append(h)
+            ms.append({"name": h, "type": "lnk", "link": "content/%s/%s" % (link if r.random() < 0.8 else base, fname), "mode": r.choice(MODES_F)})
+        elif k < 0.66:      # (re-)point the symlink
+            ms.append({"name": "content/" + link, "type": "sym", "link": outside if r.random() < 0.6 else r.choice(inside)})
+        elif k < 0.74 and hls:      # write through an earlier hard link
+            ms.append({"name": r.choice(hls), "type": "reg", "data": "pwn", "mode": 0o644})
+        elif k < 0.87:      # the same name with another type
+            n = r.choice([link, base, "e2", fname])
+            t = r.choice(["reg", "dir", "sym", "fifo"])
+            ms.append({"name": "content/" + n, "type": t, "data": "T", "link": r.choice(inside + [outside, base + "/" + fname]), "mode": 0o755})
+        else:               # through the name
+            t = r.choice(["reg", "dir", "sym", "lnk"])
+            ms.append({"name": "content/%s/%s" % (r.choice([link, base]), r.choice([fname, "new", "sub/x"])), "type": t, "data": "thru",
+                       "link": ("content/%s/%s" % (base, fname)) if t == "lnk" else r.choice(["x", outside]), "mode": 0o644})
+    return ms
+
+
 def gen_hostile(r, jail):
     """-> (members, vsn)"""
-    if r.random() < 0.40:
+    k0 = r.random()
+    if k0 < 0.30:
+        ms = gen_stateful(r, jail)
+    elif k0 < 0.58:
         ms = scenario(r, jail)
         if r.random() < 0.3:
             ms.insert(r.randrange(len(ms) + 1), gen_member(r, [m["name"] for m in ms], jail))
@@ -425,7 +475,7 @@ def gen_hostile(r, jail):
         vsn = None
     elif k < 0.08:
         vsn = r.choice(["0", "2", "", "1 "])
-    return out[:9], vsn
+    return out[:12], vsn
 
 
 def gen_jail_variant(r):
